@@ -56,11 +56,14 @@ fn all_entries_1d<T: El>(tr: &mut Trace, rng: &mut Rng, b: &B1<'_, T>, pts: &[T]
         b.q(tr, Entry::Interp, "-", &scalar_q(p), Lay::C);
         b.q(tr, Entry::Into, "-", &scalar_q(p), *rng.pick(lays));
     }
-    for (tag, shape) in query_shapes(thorough) {
+    // query and buffer layouts rotate deterministically so that every layout meets every query rank
+    for (k, (tag, shape)) in query_shapes(thorough).into_iter().enumerate() {
         let n: usize = shape.iter().product();
-        let q = arr_q(&shape, fill_from(pts, n, rng), *rng.pick(lays));
-        b.q(tr, Entry::Array, tag, &q, Lay::C);
-        b.q(tr, Entry::ArrayInto, tag, &q, *rng.pick(lays));
+        for r in 0..(if lays.len() > 1 { 2 } else { 1 }) {
+            let q = arr_q(&shape, fill_from(pts, n, rng), lays[(k + r * 2) % lays.len()]);
+            b.q(tr, Entry::Array, tag, &q, Lay::C);
+            b.q(tr, Entry::ArrayInto, tag, &q, lays[(k + r + 1) % lays.len()]);
+        }
     }
 }
 
@@ -72,13 +75,16 @@ fn all_entries_2d<T: El>(tr: &mut Trace, rng: &mut Rng, b: &B2<'_, T>, px: &[T],
         b.q(tr, Entry::Interp, "-", &scalar_q(px[k]), &scalar_q(py[k]), Lay::C);
         b.q(tr, Entry::Into, "-", &scalar_q(px[k]), &scalar_q(py[k]), *rng.pick(lays));
     }
-    for (tag, shape) in query_shapes(thorough) {
+    for (k, (tag, shape)) in query_shapes(thorough).into_iter().enumerate() {
         let n: usize = shape.iter().product();
-        let idx: Vec<usize> = (0..n).map(|_| rng.below(px.len().min(py.len()))).collect();
-        let qx = arr_q(&shape, idx.iter().map(|&i| px[i]).collect(), *rng.pick(lays));
-        let qy = arr_q(&shape, idx.iter().map(|&i| py[i]).collect(), *rng.pick(lays));
-        b.q(tr, Entry::Array, tag, &qx, &qy, Lay::C);
-        b.q(tr, Entry::ArrayInto, tag, &qx, &qy, *rng.pick(lays));
+        for r in 0..(if lays.len() > 1 { 3 } else { 1 }) {
+            let idx: Vec<usize> = (0..n).map(|_| rng.below(px.len().min(py.len()))).collect();
+            // x and y query arrays get different layouts (incl. column-major x with row-major y)
+            let qx = arr_q(&shape, idx.iter().map(|&i| px[i]).collect(), lays[(k + r) % lays.len()]);
+            let qy = arr_q(&shape, idx.iter().map(|&i| py[i]).collect(), lays[(k + 2 * r + 1) % lays.len()]);
+            b.q(tr, Entry::Array, tag, &qx, &qy, Lay::C);
+            b.q(tr, Entry::ArrayInto, tag, &qx, &qy, lays[(k + r + 2) % lays.len()]);
+        }
     }
 }
 
@@ -613,7 +619,7 @@ pub fn custom(tr: &mut Trace, rng: &mut Rng, thorough: bool) {
         // queries that a strategy must receive unmodified: far outside, -0.0, subnormal, infinities, NaN
         let pts = vec![x[0], x[1] + 0.125, x[n - 1] + 100.0, -0.0, 5e-324, f64::INFINITY, f64::NAN, x[0] - 7.0];
         if let Some(b) = do_build1(tr, &cfg, &Strat1::Custom(new_custom(2, false, None)), &[]) {
-            all_entries_1d(tr, rng, &b, &pts, shape.len() == 1 && !dynamic, thorough, &[Lay::C, Lay::Window]);
+            all_entries_1d(tr, rng, &b, &pts, shape.len() == 1 && !dynamic, thorough, &[Lay::C, Lay::F, Lay::Window, Lay::Perm, Lay::Rev]);
             for i in 0..n {
                 acc1(tr, &b, i);
             }
@@ -649,7 +655,7 @@ pub fn custom(tr: &mut Trace, rng: &mut Rng, thorough: bool) {
         let px = vec![x[0], x[1] + 0.125, x[nx - 1] + 100.0, -0.0, f64::NAN];
         let py = vec![y[ny - 1], y[0] - 3.0, 0.0, y[1], y[1]];
         if let Some(b) = do_build2(tr, &cfg, &Strat2::Custom(new_custom(2, false, None)), &[]) {
-            all_entries_2d(tr, rng, &b, &px, &py, shape.len() == 2 && !dynamic, thorough, &[Lay::C, Lay::Window]);
+            all_entries_2d(tr, rng, &b, &px, &py, shape.len() == 2 && !dynamic, thorough, &[Lay::F, Lay::C, Lay::Window, Lay::Perm, Lay::Rev]);
             for i in 0..nx {
                 for j in 0..ny {
                     acc2(tr, &b, i, j);
